@@ -163,7 +163,9 @@ func (s TraitDescs) ParsableValuesOf(v Value) []string {
 			// A constant already listed for this value (two parsable traits with equal
 			// cells on one line) must not be repeated: the same constant twice in one
 			// `case` does not compile, and it parses to the same enum value anyway.
-			if !slices.ContainsFunc(listed, instance.sameConstant) {
+			// The same goes for a plain string trait that spells the value's own name: the
+			// name is already listed in the case.
+			if !instance.isName(v.Name) && !slices.ContainsFunc(listed, instance.sameConstant) {
 				out = append(out, instance.Value())
 			}
 			listed = append(listed, instance)
@@ -250,6 +252,16 @@ func implementsTextUnmarshaler(td *TraitDesc) bool {
 		panic("Failed to find encoding.TextUnmarshaler")
 	}
 	return types.Implements(td.Type, iFace)
+}
+
+// isName reports whether the trait constant is the plain string `name`, i.e. the very constant
+// the Parse switch lists for the enum value of that name.
+func (t TraitInstance) isName(name string) bool {
+	if t.constType == nil || t.constValue == nil || t.constValue.Kind() != constant.String {
+		return false
+	}
+	return types.Identical(types.Default(t.constType), types.Typ[types.String]) &&
+		constant.StringVal(t.constValue) == name
 }
 
 // clashesWith reports whether Parse<T> could not tell the two trait constants apart.
